@@ -530,8 +530,10 @@ Stress(e) ==
                      /\ PrintT(<<"FAIL", {"C15"}, e.tr, r, e.mode, "stress", <<"checkpoint-above-delivered">>, maxOf(delivered(r)), runs[r].ckpt>>)})
         \* C04: CAS values are distinct and increase in commit order
         fCas == Fs(incr(e.commit), {"C04", "C08"}, <<"commit-order-not-cas-order">>, "increasing", Len(e.commit))
+        \* C03: no increment is lost (the counter is created with 1 by the first Incr and never deleted)
+        fIncr == Fs(e.counter = e.incrs, {"C03"}, <<"lost-increment">>, e.incrs, e.counter)
     IN
-    /\ nfail' = nfail + fOrder + fLive + fSkip + fCkpt + fCas
+    /\ nfail' = nfail + fOrder + fLive + fSkip + fCkpt + fCas + fIncr
     /\ UNCHANGED <<docs, obs, dumps, clock, start, evlog, verlog, auxs, vdef>>
 
 Next ==
